@@ -90,11 +90,22 @@ def cover(candidates, shape, budget, positions=True, firstlast=True, pairs=True,
     todo = universe(shape, positions, firstlast, pairs) - set(impossible)
     for uni, _ in extra:
         todo |= uni
-    total = len(todo)
+    # the pair family ("two intermediates share their first / last byte") is OPPORTUNISTIC: some of its classes are structurally
+    # impossible for a given computation (child = IL + k with a fixed k never keeps IL's top byte), so completeness is required
+    # of the other families only and the search for pairs stops a while after those are complete
+    is_pair = lambda t: t[0] in ("eq-first", "eq-last")
+    required = len([t for t in todo if not is_pair(t)])
+    npairs = len(todo) - required
     kept = []
     tried = 0
+    done_at = None
     for inp, feats in candidates:
         if not todo or tried >= budget:
+            break
+        left_required = sum(1 for t in todo if not is_pair(t)) if done_at is None else 0
+        if done_at is None and left_required == 0:
+            done_at = tried
+        if done_at is not None and tried >= max(4000, 3 * done_at):
             break
         tried += 1
         hit = classes_of(feats, positions, firstlast, pairs)
@@ -104,8 +115,10 @@ def cover(candidates, shape, budget, positions=True, firstlast=True, pairs=True,
         if hit:
             todo -= hit
             kept.append((inp, len(hit)))
-    return kept, {"classes": total, "covered": total - len(todo), "candidates_tried": tried, "inputs_kept": len(kept),
-                  "uncovered_examples": sorted(map(repr, todo))[:5]}
+    left_pairs = len([t for t in todo if is_pair(t)])
+    left_req = len(todo) - left_pairs
+    return kept, {"classes": required, "covered": required - left_req, "pair_classes": npairs, "pair_classes_covered": npairs - left_pairs,
+                  "candidates_tried": tried, "inputs_kept": len(kept), "uncovered_examples": sorted(map(repr, todo))[:5]}
 
 
 def scalar_walk(start, secp):
